@@ -5,8 +5,9 @@ module turns the abstract program into source text, assembles it with the real c
 Nothing here computes an expected value: it renders, runs and compares.
 """
 import re
+import tempfile
 
-from .common import MachineryError
+from .common import MachineryError, tmp_root, rmtree
 from .drive import asm
 from .tlc import run_tlc, require_ok
 
@@ -156,6 +157,24 @@ def walk_dir(stmts, inc, d):
 INC_SPELLINGS = ["{n}.mac", "./{n}.mac", "sub/../{n}.mac"]
 
 
+END_JUNK = ["*** END OF PROGRAM ***", "\t.ascii \"not closed", "=====\x1a"]
+
+
+def spell_ends(lines, h):
+    """every top-level '.end' in one of three spellings; behind the capitalised ones stands text that is not assembly (a banner, an open
+    string, a ruler with a Ctrl-Z): whatever follows the directive in its file is discarded, it need not even parse"""
+    out = []
+    for q, ln in enumerate(lines):
+        if ln == "\t.end":
+            v = (h + q) % 3
+            out.append(["\t.end", "\t.END", "\t.End"][v])
+            if v:
+                out.append(END_JUNK[(h + q) % len(END_JUNK)])
+        else:
+            out.append(ln)
+    return out
+
+
 def upcase(text):
     """the text in upper case except for what stands between double quotes (strings, file names): symbols, mnemonics, registers and
     directives are case-insensitive"""
@@ -214,7 +233,7 @@ def render(files, inc, base=None, late=None, vary_case=False):
             lines = []
             for s in f["body"]:
                 lines += stmt(s, plain)
-            fs[inc_path(f)] = "\n".join(lines) + "\n"
+            fs[inc_path(f)] = "\n".join(spell_ends(lines, h)) + "\n"
             if vary_case and (h + len(f["name"]) + inc.index(f)) % 3 == 0:
                 fs[inc_path(f)] = upcase(fs[inc_path(f)])
         fs["sub/.keep"] = ""
@@ -247,7 +266,7 @@ def render(files, inc, base=None, late=None, vary_case=False):
             lines.append("hbase9 = %o" % base)
         if i == len(files) - 1 and base is not None and link_at == "end":
             lines.append("\t.link %o" % base)
-        text = "\n".join(lines) + "\n"
+        text = "\n".join(spell_ends(lines, h + i)) + "\n"
         if vary_case and (h + i) % 2 == 1:
             text = upcase(text)           # every other file spells everything in upper case (names are case-insensitive)
         srcs.append((f"f{i + 1}.mac", text))
@@ -294,6 +313,7 @@ def replay(task):
         else:
             variants.append((run, None, None))
     done = set()
+    shared_root = None           # the variants of one program are assembled in ONE directory: same include paths, assembly after assembly
     for run, base, late in variants:
         srcs, fs = render(rec["files"], inc, base, late, vary_case=opts.get("vary_case", False))
         key = repr(srcs)
@@ -303,7 +323,9 @@ def replay(task):
         to = 1.0 if rec.get("cyc") else opts.get("timeout", 5.0)
         # non-ASCII quoted text ("u" chunks) is specified for the UTF-8 output charset
         charset = "utf-8" if any(s_["k"] == "asciic" and any("u" in c for c in s_["cs"]) for f in rec["files"] for s_ in walk(f, inc)) else "bk"
-        r = asm(srcs, fs=fs, timeout=to, listing=opts.get("check_syms", True), charset=charset)
+        if fs is not None and shared_root is None:
+            shared_root = tempfile.mkdtemp(prefix="asmv-", dir=tmp_root())
+        r = asm(srcs, fs=fs, timeout=to, listing=opts.get("check_syms", True), charset=charset, root=(shared_root if fs is not None else None))
         want_ok = bool(run["ok"]) and rec["own"] != "err"
         p = None
         if r["outcome"] in ("hang", "exception"):
@@ -332,6 +354,8 @@ def replay(task):
                       "sources": {n: t for n, t in srcs}, "fs": {k: (v if isinstance(v, str) else v.hex()) for k, v in (fs or {}).items()},
                       "reports": [[x[0], x[1]] for x in r["reports"]][:8]})
             problems.append(p)
+    if shared_root is not None:
+        rmtree(shared_root)
     return problems
 
 
